@@ -1,5 +1,8 @@
 import Ivg.Lemmas.GeomQ
-import Ivg.Gen.Tie
+import Ivg.Gen.Tie.DrawOps
+import Ivg.Gen.Tie.GradientFields
+import Ivg.Gen.Tie.Magic
+import Ivg.Gen.Tie.RendererFields
 import Ivg.Obligations
 /-!
 # C05 — drawing operations reach the rasteriser as the right segments, affinely mapped
@@ -45,6 +48,13 @@ theorem T_closed (z : Renderer ℚ ℚ) (dx dy : ℚ) (vb : ViewBox ℚ)
     (hsy : z.scaleY = dy / (vb.maxY - vb.minY)) (hby : z.biasY = -vb.minY) (p : Pt ℚ) :
     T z p = ⟨dx * (p.x - vb.minX) / (vb.maxX - vb.minX), dy * (p.y - vb.minY) / (vb.maxY - vb.minY)⟩ :=
   GeomQ.T_closed z dx dy vb hsx hbx hsy hby p
+
+/-- … parts 1 and 2 together. -/
+theorem T_after_reset [SqrtQ] (z0 : Renderer ℚ ℚ) (r : Rect) (posInf : ℚ) (vb : ViewBox ℚ) (pal : Palette)
+    (hr : r.empty = false) (p : Pt ℚ) :
+    T ((z0.setRasterizer r).reset posInf vb pal) p =
+      ⟨(r.dx : ℚ) * (p.x - vb.minX) / (vb.maxX - vb.minX), (r.dy : ℚ) * (p.y - vb.minY) / (vb.maxY - vb.minY)⟩ :=
+  GeomQ.T_after_reset z0 r posInf vb pal hr p
 
 /-- … part 3: which maps the viewBox's corners to the corners `(0,0)`, `(dx,dy)` of the target rectangle. -/
 theorem T_corners (z : Renderer ℚ ℚ) (dx dy : ℚ) (vb : ViewBox ℚ)
@@ -168,7 +178,7 @@ end generic
 end Ivg.Props.C05
 
 #obligations C05 [
-  Ivg.Props.C05.transform_after_reset, Ivg.Props.C05.T_closed, Ivg.Props.C05.T_corners,
+  Ivg.Props.C05.transform_after_reset, Ivg.Props.C05.T_closed, Ivg.Props.C05.T_after_reset, Ivg.Props.C05.T_corners,
   Ivg.Props.C05.unabs_abs, Ivg.Props.C05.step_refines, Ivg.Props.C05.run_refines,
   Ivg.Props.C05.startPath_cases, Ivg.Props.C05.geometry_refines, Ivg.Props.C05.step_kinds,
   Ivg.Props.C05.step_disabled, Ivg.Props.C05.closeMove_generic, Ivg.Props.C05.closeEnd_generic,
